@@ -7,7 +7,7 @@ cd $wt || exit 2
 for d in MUTANTS/*/; do
   k=$(basename $d)
   crate=$(head -3 $d/demo.rs | grep -o 'frost-[a-z0-9-]*' | head -1)
-  feat=$(head -3 $d/demo.rs | grep -o '\-\-features [a-z,-]*' | head -1)
+  feat=$(head -4 $d/demo.rs | grep 'cargo test' | grep -o '\-\-features [a-z,-]*' | grep -v 'features needed' | head -1)
   git checkout -q -- . ; rm -f */tests/mutant_demo_*.rs
   cp $d/demo.rs $crate/tests/mutant_demo_$k.rs
   cargo test -p $crate --offline $feat --test mutant_demo_$k > /tmp/confirm_$id_$k.clean 2>&1; c=$?
